@@ -44,7 +44,36 @@ func (u *Unit) lookupLocal(env *Env, name string) (Val, bool) {
 	if env.fr == nil || env.callee {
 		return nil, false
 	}
+	// The names of a contract are those of the function it is written on (and of its closures). An event may
+	// fire inside a helper that was inlined: its parameters and locals are not in scope (they could even
+	// capture a name of the contract), so resolution starts at the nearest enclosing frame of the owner.
 	fr := env.fr
+	if u.root != nil {
+		owned := func(f *ssa.Function) bool {
+			for f.Parent() != nil {
+				f = f.Parent()
+			}
+			return f == u.root
+		}
+		for fr != nil && fr.fn != nil && !owned(fr.fn) {
+			fr = fr.parent
+		}
+		if fr == nil {
+			return nil, false
+		}
+	}
+	for ; fr != nil; fr = fr.parent {
+		if v, ok := u.lookupIn(env, fr, name); ok {
+			return v, true
+		}
+		if fr.fn == nil || fr.fn.Parent() == nil {
+			break
+		}
+	}
+	return nil, false
+}
+
+func (u *Unit) lookupIn(env *Env, fr *Frame, name string) (Val, bool) {
 	for _, p := range fr.fn.Params {
 		if p.Name() == name {
 			if v, ok := fr.vals[p]; ok {
